@@ -3,7 +3,74 @@ import GnpyModel
 /- driver handlers for property C07 (ops are named "c07.<name>") -/
 open Lean
 namespace Gnpy.Drv.C07
+open Gnpy.Bands
 
-def handlers : List (String × Handler) := []
+/-- a channel crosses the pipe as `[f, slot, baud, pay]` (integers) -/
+def getCh (j : Json) : R Ch := do
+  match ← getArr j with
+  | [f, s, b, p] => return { f := ← getInt f, slot := ← getInt s, baud := ← getInt b, pay := ← getNat p }
+  | _ => throw "channel = [f,slot,baud,pay] expected"
+
+def jCh (c : Ch) : Json := Json.arr #[jInt c.f, jInt c.slot, jInt c.baud, jNat c.pay]
+
+/-- a band crosses the pipe as `[fmin, fmax, spacing|null]` -/
+def getBand (j : Json) : R Band := do
+  match ← getArr j with
+  | [lo, hi] => return { fmin := ← getInt lo, fmax := ← getInt hi, spacing := none }
+  | [lo, hi, s] => return { fmin := ← getInt lo, fmax := ← getInt hi, spacing := ← getOpt getInt s }
+  | _ => throw "band = [fmin,fmax(,spacing)] expected"
+
+def jBand (b : Band) : Json := Json.arr #[jInt b.fmin, jInt b.fmax, jOpt jInt b.spacing]
+
+def jErr : Err → Json
+  | .spectrum => jStr "SpectrumError"
+  | .value => jStr "ValueError"
+
+def jRes (r : Except Err (List Ch)) : Json :=
+  match r with
+  | .ok l => jObj [("ok", jList jCh l)]
+  | .error e => jObj [("err", jErr e)]
+
+def getElem (j : Json) : R Elem := do
+  match ← fStr j "k" with
+  | "edfa" => return .edfa (← fList getBand j "bands")
+  | "multiband" => return .multiband (← fList getBand j "params") (← fList getBand j "bands")
+  | _ => return .other
+
+def mkH (j : Json) : R Json := do
+  return jRes (mkSpectrum (← fList getCh j "chans"))
+
+def gridH (j : Json) : R Json := do
+  return jRes (gridSpectrum (← fInt j "fmin") (← fInt j "fmax") (← fInt j "spacing") (← fInt j "baud"))
+
+def demuxH (j : Json) : R Json := do
+  let b ← getBand (← fld j "band")
+  return jOpt jRes (demux b (← fList getCh j "sp"))
+
+def muxH (j : Json) : R Json := do
+  return jRes (mux (← fList (getList getCh) j "parts"))
+
+def inBandH (j : Json) : R Json := do
+  let b ← getBand (← fld j "band")
+  return jList (fun c => jBool (inBand b c)) (← fList getCh j "sp")
+
+def filterH (j : Json) : R Json := do
+  return jRes (filterSi (← fList getBand j "common") (← fList getCh j "sp"))
+
+def commonH (j : Json) : R Json := do
+  let amps ← fList (getList getBand) j "amps"
+  return jList jBand (commonRange amps (← fOpt getInt j "fmin") (← fOpt getInt j "fmax") (← fInt j "spacing"))
+
+def callH (j : Json) : R Json := do
+  return jRes ((← getElem (← fld j "elem")).call (← fList getCh j "sp"))
+
+def propagateH (j : Json) : R Json := do
+  let path ← fList getElem j "path"
+  return jRes (propagate path (← fOpt getInt j "fmin") (← fOpt getInt j "fmax") (← fInt j "spacing")
+    (← fList getCh j "chans"))
+
+def handlers : List (String × Handler) :=
+  [("c07.mk", mkH), ("c07.grid", gridH), ("c07.demux", demuxH), ("c07.mux", muxH), ("c07.inband", inBandH), ("c07.filter", filterH),
+   ("c07.common", commonH), ("c07.call", callH), ("c07.propagate", propagateH)]
 
 end Gnpy.Drv.C07
